@@ -1,16 +1,16 @@
 package symex
 
 import (
-	"go/types"
-	"sync"
 	"crypto/sha256"
 	"encoding/hex"
 	"fmt"
+	"go/types"
 	"math/big"
 	"os"
 	"path/filepath"
 	"sort"
 	"strings"
+	"sync"
 
 	"golang.org/x/tools/go/packages"
 	"golang.org/x/tools/go/ssa"
